@@ -80,6 +80,15 @@ class C18(C16):
                 case["_xl_truth"] = truth
             obs = L.run_load(case["tree"], base, root, case["cfg"])
             obs["base"], obs["root"] = base, root
+            # the same kind of text read from a stream, with the origin given by the caller
+            import io
+
+            from pdtable import read_csv
+
+            tb = [b for bt, b in read_csv(io.StringIO("\n" + L.table_text(1, 0)), sep=";", origin="my source") if bt.name == "TABLE"]
+            if tb:
+                loc = tb[0].metadata.origin.input_location
+                obs["stream_origin"] = [loc.file.load_specification.specification, loc.row, loc.sheet_name]
             obs["nodes"] = [[p, k, pl] for p, k, pl in L.scan_fs(base, case["tree"], root)]
             obs["xl_truth"] = case.pop("_xl_truth", None)
             # ground truth rows of the csv tables
@@ -157,8 +166,17 @@ class C18(C16):
                 is_entry = is_entry or any(fo and os.path.join(root, fo) == os.path.join(src, spec) for fo in case["tree"]["folders"])
                 if not (in_include or is_entry):
                     fails.append(f"history-link: item {spec!r} from {os.path.relpath(src, obs['base'])} matches no directive or entry there")
-        # the location forest
-        trees = obs.get("trees")
+        # the location forest, for the tables in load order and in three other orders
+        for tag, trees in [("", obs.get("trees"))] + [(k + ": ", v) for k, v in (obs.get("trees_other") or {}).items()]:
+            fails += [tag + f for f in self._forest(case, obs, trees, truth, xl, root)]
+        # a stream read with an explicit origin names that origin
+        so = obs.get("stream_origin")
+        if so is not None and so != ["my source", 1, None]:
+            fails.append(f"stream-origin: read_csv(stream, origin='my source') reports {so}")
+        return fails
+
+    def _forest(self, case, obs, trees, truth, xl, root):
+        fails = []
         if isinstance(trees, str):
             fails.append(f"trees: make_location_trees raised {trees}")
         elif trees:
